@@ -1,5 +1,165 @@
-//! C19 — not implemented yet.
+//! C19 — serialisation and interop (serde, bytemuck, rkyv, mint) round-trip every value, identically across backends.
+#![allow(dead_code)]
+use vcore::*;
+
+mod gen;
+mod tok;
+
+/// Compile-time trait probes: `<IsPod<T>>::YES` is the inherent constant (true) when `T: Pod`,
+/// otherwise it falls back to the blanket trait constant (false). Works for concrete `T` only.
+pub mod probe {
+    use core::marker::PhantomData;
+    pub trait ProbeNo {
+        const YES: bool = false;
+    }
+    macro_rules! probe_def {
+        ($P:ident, $($Tr:tt)+) => {
+            pub struct $P<T>(PhantomData<T>);
+            impl<T: $($Tr)+> $P<T> {
+                pub const YES: bool = true;
+            }
+            impl<T> ProbeNo for $P<T> {}
+        };
+    }
+    probe_def!(IsPod, bytemuck::Pod);
+    probe_def!(IsAbp, bytemuck::AnyBitPattern);
+    probe_def!(IsZeroable, bytemuck::Zeroable);
+    probe_def!(IsNoUninit, bytemuck::NoUninit);
+    probe_def!(IsSer, serde::Serialize);
+    probe_def!(IsDe, serde::de::DeserializeOwned);
+    probe_def!(IsArchive, rkyv::Archive);
+    probe_def!(IsMint, mint::IntoMint);
+}
+
+/// What one build makes of one value through the serde carriers (compared across builds).
+#[derive(Clone, PartialEq, Debug)]
+pub struct Obs {
+    pub tokens: Vec<tok::Tok>,
+    pub tok_err: Option<String>,
+    pub json: Result<String, String>,
+    /// elements deserialised from the harness-built token stream
+    pub de_tok: Result<Vec<u64>, String>,
+    /// elements deserialised from the harness-built JSON text (finite values only)
+    pub de_json: Option<Result<Vec<u64>, String>>,
+}
+
+#[derive(Clone, Copy, Debug)]
+pub struct Info {
+    pub name: &'static str,
+    pub kind: gen::Kind,
+    pub n: usize,
+}
+
+mod feat {
+    pub const VARIANT: &str = "feat";
+    macro_rules! simd_only { ($($t:tt)*) => { $($t)* }; }
+    use ::glam_feat as glam;
+    include!("suite.rs");
+}
+mod scalar_feat {
+    pub const VARIANT: &str = "scalar_feat";
+    macro_rules! simd_only { ($($t:tt)*) => {}; }
+    use ::glam_scalar_feat as glam;
+    include!("suite.rs");
+}
+#[cfg(feature = "core")]
+mod core_feat {
+    pub const VARIANT: &str = "core_feat";
+    macro_rules! simd_only { ($($t:tt)*) => { $($t)* }; }
+    use ::glam_core_feat as glam;
+    include!("suite.rs");
+}
+
+type ObsFn = fn(&str, &[u64]) -> Option<Obs>;
+
+/// In-process differential: the same element words through two builds of the working tree.
+fn cross_subs<'a>(out: &mut Vec<SubCheck<'a>>, an: &'static str, a: ObsFn, bn: &'static str, b: ObsFn, infos: Vec<Info>) {
+    use serde_json::json;
+    for inf in infos {
+        let pair = format!("{an}~{bn}");
+        let name = format!("cross/{}/{}", inf.name, pair);
+        let pair2 = pair.clone();
+        let check = move |w: &[u64], t: &mut Tally| -> Result<(), Fail> {
+            t.eval(1);
+            let (oa, ob) = (a(inf.name, w), b(inf.name, w));
+            let (oa, ob) = match (oa, ob) {
+                (Some(x), Some(y)) => (x, y),
+                (x, y) => {
+                    t.class(&format!("not-compared: serde impl present in {an}: {}, in {bn}: {}", x.is_some(), y.is_some()));
+                    return Ok(());
+                }
+            };
+            let euler = inf.name == "EulerRot";
+            let nt = if euler { true } else { gen::classify(inf.kind, &w[..inf.n.min(w.len())], t) };
+            if nt {
+                if euler || inf.kind.boolean {
+                    t.nontrivial_enum(1);
+                } else {
+                    t.nontrivial(mix(hash_str(inf.name), mix(hash_str(&pair2), fnv(w))));
+                }
+                if t.want_sample() {
+                    t.sample(json!({"type": inf.name, "builds": pair2, "words": hexwords(w), "tokens": tok::show(&oa.tokens), "json": format!("{:?}", oa.json)}));
+                }
+            }
+            if oa.json.is_ok() && oa.de_json.is_some() {
+                t.class("json-text-compared");
+            }
+            let f = |op: &str, msg: String| Fail::new(format!("C19/{}/{}/{}", pair2, inf.name, op), op.to_string(), msg);
+            if oa.tokens != ob.tokens || oa.tok_err != ob.tok_err {
+                return Err(f("cross-tokens", format!("{} words {:?}: {an} serialises to {} ({:?}), {bn} to {} ({:?})", inf.name, hexwords(w), tok::show(&oa.tokens), oa.tok_err, tok::show(&ob.tokens), ob.tok_err)));
+            }
+            if oa.json != ob.json {
+                return Err(f("cross-json", format!("{} words {:?}: serde_json::to_string gives {:?} in {an}, {:?} in {bn}", inf.name, hexwords(w), oa.json, ob.json)));
+            }
+            if oa.de_tok != ob.de_tok {
+                return Err(f("cross-deserialize", format!("{} words {:?}: from tokens {an} gives {:?}, {bn} gives {:?}", inf.name, hexwords(w), oa.de_tok, ob.de_tok)));
+            }
+            if oa.de_json != ob.de_json {
+                return Err(f("cross-json-deserialize", format!("{} words {:?}: from JSON text {an} gives {:?}, {bn} gives {:?}", inf.name, hexwords(w), oa.de_json, ob.de_json)));
+            }
+            Ok(())
+        };
+        let check2 = check.clone();
+        let run = move |env: &mut Env| {
+            if inf.name == "EulerRot" {
+                for i in 0..24u64 {
+                    if !env.direct(&[i], &check2) {
+                        return;
+                    }
+                }
+                return;
+            }
+            for f in gen::fixed(inf.kind, inf.n) {
+                if !env.direct(&f, &check2) {
+                    return;
+                }
+            }
+            if inf.kind.boolean {
+                return;
+            }
+            env.tally.exhaustive = false;
+            let n = env.cases(20_000, 40);
+            env.prop("cross", n, gen::elems_text(inf.kind, inf.n), &check2);
+        };
+        out.push(SubCheck::new(name, 1, run, check));
+    }
+}
+
 fn main() {
-    eprintln!("c19: not implemented");
-    std::process::exit(2);
+    let args = Args::parse();
+    let mut subs = vec![];
+    #[cfg(not(feature = "core"))]
+    {
+        subs.extend(feat::subs(&args));
+        subs.extend(scalar_feat::subs(&args));
+        cross_subs(&mut subs, "feat", feat::observe, "scalar_feat", scalar_feat::observe, feat::infos());
+    }
+    #[cfg(feature = "core")]
+    {
+        subs.extend(core_feat::subs(&args));
+        cross_subs(&mut subs, "core_feat", core_feat::observe, "feat", feat::observe, core_feat::infos());
+        cross_subs(&mut subs, "core_feat", core_feat::observe, "scalar_feat", scalar_feat::observe, core_feat::infos());
+    }
+    let code = main_with("C19", "see MANIFEST / evidence rule", &args, subs);
+    std::process::exit(code);
 }
